@@ -1,28 +1,28 @@
 SPECIFICATION GenSpec
 CONSTANTS
-  Sessions = {"L1", "M1"}
-  Legacy = {"L1"}
-  InitOn = {"L1", "M1"}
+  Sessions = {"M1"}
+  Legacy = {}
+  InitOn = {"M1"}
   InitSub = {}
-  Kinds = {"tools", "resources", "templates"}
+  Kinds = {}
   NotifOf <- NotifStd
   Uris = {"u1"}
   Want <- WantAll
   CapOff = {}
-  TTLPos = TRUE
+  TTLPos = FALSE
   D = 2
-  MaxTime = 14
-  MaxChanges = 5
-  MaxUpdates = 2
-  MaxCalls = 3
+  MaxTime = 4
+  MaxChanges = 0
+  MaxUpdates = 1
+  MaxCalls = 0
   ModernUnsub = TRUE
   Stepwise = TRUE
   Gates = TRUE
-  GateNames = {"inv", "usr", "put", "unsub"}
+  GateNames = {"unsub"}
   ClientFirst = FALSE
-  MinSteps = 10
-  MaxSteps = 22
-  Bias = TRUE
+  MinSteps = 1
+  MaxSteps = 8
+  Bias = FALSE
   GenOps = {"change", "tchange", "updated", "connect", "close", "subscribe", "unsubscribe", "list", "tick", "hold", "release"}
-INVARIANTS Export
+INVARIANTS LeadUpdated
 CHECK_DEADLOCK FALSE
